@@ -121,7 +121,9 @@ EXTRA = {
     'convert_strong': {'proof': ['reveal_strlit("*");', 'pf_markup_container({n}); let ghost ch = {n}.children_s(); pf_children({n}); pf_sig(ch[0]); pf_sig(ch[2]); pf_token_text(ch[0]); pf_token_text(ch[2]); reveal_with_fuel(sig_concat, 4); assert(ch.drop_last().drop_last().drop_last() =~= Seq::<&SyntaxNode>::empty()); assert(sig_concat(ch) =~= sig_leaves(ch[0]) + sig_leaves(ch[1]) + sig_leaves(ch[2])); lemma_w_algebra();']},
     'convert_emph': {'proof': ['reveal_strlit("_");', 'pf_markup_container({n}); let ghost ch = {n}.children_s(); pf_children({n}); pf_sig(ch[0]); pf_sig(ch[2]); pf_token_text(ch[0]); pf_token_text(ch[2]); reveal_with_fuel(sig_concat, 4); assert(ch.drop_last().drop_last().drop_last() =~= Seq::<&SyntaxNode>::empty()); assert(sig_concat(ch) =~= sig_leaves(ch[0]) + sig_leaves(ch[1]) + sig_leaves(ch[2])); lemma_w_algebra();']},
     'convert_content_block': {'proof': ['reveal_strlit("["); reveal_strlit("]"); assert("["@ =~= seq![\'[\']); assert("]"@ =~= seq![\']\']);', 'pf_markup_container({n}); let ghost ch = {n}.children_s(); pf_children({n}); pf_sig(ch[0]); pf_sig(ch[2]); pf_token_text(ch[0]); pf_token_text(ch[2]); reveal_with_fuel(sig_concat, 4); assert(ch.drop_last().drop_last().drop_last() =~= Seq::<&SyntaxNode>::empty()); assert(sig_concat(ch) =~= sig_leaves(ch[0]) + sig_leaves(ch[1]) + sig_leaves(ch[2])); lemma_w_algebra();']},
-    'convert_ref': {'proof': ['reveal_strlit("@"); reveal_with_fuel(pieces, 4);'], 'ensures': ['[target_exact C10] pieces(r@).len() >= 2 && pieces(r@)[0] == txt("@"@) && pieces(r@)[1] == txt(ast::Ref({n}).target_s())'], 'serves': 'C10'},
+    'convert_ref': {'proof': ['reveal_strlit("@"); reveal_with_fuel(pieces, 4);'], 'ensures': ['[target_exact C10] pieces(r@).len() >= 2 && pieces(r@)[0] == txt("@"@) && pieces(r@)[1] == txt(ast::Ref({n}).target_s())',
+                                '[supplement_is_converted_with_all_its_words C08 C01 C06] ast::Ref({n}).supplement_s() is Some && unmarked(self.store_s(), ast::Ref({n}).supplement_s()->Some_0.node()) ==> (exists|d: DocV| r@ == #[trigger] cat(cat(txt("@"@), txt(ast::Ref({n}).target_s())), d) && w_ok(d, sig_leaves(ast::Ref({n}).supplement_s()->Some_0.node())))',
+                                '[without_supplement_nothing_else_is_emitted C08] ast::Ref({n}).supplement_s() is None ==> r@ == cat(txt("@"@), txt(ast::Ref({n}).target_s()))'], 'serves': 'C10 C08'},
     'convert_dot_chain': {'requires': ['[only_for_field_accesses_and_calls] {n}.kind_s() == SyntaxKind::FieldAccess || {n}.kind_s() == SyntaxKind::FuncCall']},
     'convert_field_access_plain': {'proof': ['reveal_strlit("."); lemma_w_algebra(); if !has_comment_child({n}.children_s()) { lemma_field_access_words({n}); pf_unmarked(self.store_s(), {n}); pf_sig({n}.children_s()[field_idx_s({n})]); assert("."@ =~= seq![\'.\']); }']},
     'convert_expr_flow': {'requires': ['{n}.kind_s() != SyntaxKind::Markup', '[only_for_keyword_expression_nodes] matches!({n}.kind_s(), SyntaxKind::Contextual | SyntaxKind::Conditional | SyntaxKind::WhileLoop | SyntaxKind::FuncReturn | SyntaxKind::ModuleInclude)']},
